@@ -1269,11 +1269,17 @@ class PDFCIDFont(PDFFont):
         cmap_name = "unknown"  # default value
 
         try:
-            spec_encoding = spec["Encoding"]
+            spec_encoding = resolve1(spec["Encoding"])
             if hasattr(spec_encoding, "name"):
-                cmap_name = literal_name(spec["Encoding"])
+                cmap_name = literal_name(spec_encoding)
+            elif isinstance(spec_encoding, (dict, PDFStream)):
+                cmap_name = literal_name(resolve1(spec_encoding["CMapName"]))
+            elif strict:
+                raise PDFFontError("Encoding is neither a name nor a CMap stream")
             else:
-                cmap_name = literal_name(spec_encoding["CMapName"])
+                log.warning(
+                    f"Ignoring Encoding {spec_encoding!r} because it is neither a name nor a CMap stream"
+                )
         except KeyError:
             if strict:
                 raise PDFFontError("Encoding is unspecified")
